@@ -200,6 +200,11 @@ fn run_builder_history(ops: &[BOp]) -> Option<(String, String)> {
         if real.contents != want_contents {
             return Some(("finished/contents".into(), ctx(format!("contents = {:?}, model {want_contents:?}", real.contents))));
         }
+        // the iterator over contents yields one entry per source, the same values
+        let via_iter: Vec<Option<String>> = sm.source_contents().map(|c| c.map(str::to_string)).collect();
+        if via_iter != want_contents {
+            return Some(("finished/contents-iterator".into(), ctx(format!("source_contents() yields {via_iter:?}, get_source_contents per source gives {want_contents:?}"))));
+        }
         // ids of sources that exist in the finished map (an id ignored for a source that never came
         // is not asserted either way)
         let ns = m.sources.len() as u32;
